@@ -48,5 +48,23 @@ t.append('')
 t.append('%d seeded changes; %d were caught by the checks as they stood, the others exposed blind spots of the workloads (not of the oracles) and led to the strengthenings named in the table; '
          'after them every seeded change is caught by its property\'s quick check.' % (len(seeds), first))
 block('SEEDED', '\n'.join(t))
+import subprocess
+kf = json.load(open(os.path.join(ROOT, 'known_findings.json')))
+ents = kf if isinstance(kf, list) else kf.get('findings', kf)
+byc = {}
+for e in ents:
+    if e.get('status') == 'fixed':
+        byc.setdefault(e['commit'][:7], set()).add(e['property'])
+repo = os.environ.get('VERIF_REPO', '/repo')
+base = subprocess.run(['git', '-C', repo, 'log', '--format=%h', '--grep=^snapshot', '-1'], capture_output=True, text=True).stdout.strip()
+log = subprocess.run(['git', '-C', repo, 'log', '--reverse', '--format=%h %s', (base + '..HEAD') if base else 'HEAD'], capture_output=True, text=True).stdout.strip().split('\n')
+t = ['| commit | found by | repair |', '|---|---|---|']
+for l in log:
+    h, subj = l.split(' ', 1)
+    if not subj.startswith('fix:'):
+        continue
+    t.append('| `%s` | %s | %s |' % (h, ','.join(sorted(byc.get(h[:7], []))) or '?', subj[5:]))
+block('FIXTABLE', '\n'.join(t))
 open(p, 'w').write(s)
+print('fixes', len(t) - 2)
 print('kill rows', len(rows), 'seeds', len(seeds))
